@@ -241,6 +241,11 @@ def plan_pure(S, prop, tier, avoid):
         op = {"k": which, "n": n, "seed": r.randrange(1 << 30),
               "keymode": pick(r, ["ties", "ties2", "random", "sorted", "reversed", "constant", "float", "fties", "organ"]),
               "container": pick(r, ["array", "array", "list"]), "dt": pick(r, ["i8", "i4", "f8", "f4", "u2"])}
+        if which in ("qs", "qskv") and chance(r, 0.12) and n >= 3:
+            # a sort that must FAIL half-way (records that cannot be ordered once their keys tie, a stray string among
+            # numbers): what it leaves behind must not disturb the sorts that follow
+            ops.append({"k": which + "_bad", "n": n, "seed": r.randrange(1 << 30), "keymode": pick(r, ["ties", "ties2", "random"]),
+                        "bad": pick(r, ["dictpayload", "str"]), "pos": r.randrange(0, n), "container": "list", "dt": "i8"})
         if which == "splitarray":
             op["nper"] = wpick(r, [(1, 1), (r.randrange(1, 12), 4), (n + 1, 1), (max(1, n), 1), (r.randrange(1, 400), 1)])
         if which == "isplit":
@@ -458,6 +463,24 @@ def execute_pure(script, run, env):
         if k == "isplit":
             _judge_isplit(run, algorithm, op["n"], op["nchunks"], {"stage": "isplit"})
             run.event(0, k, "%d/%d" % (op["n"], op["nchunks"]), "ok")
+        elif k in ("qs_bad", "qskv_bad"):
+            base = _keys(op).tolist()
+            if op.get("bad") == "str":
+                base[op["pos"] % len(base)] = "x"
+                data = base
+            else:
+                data = [(kk, {"payload": j}) for j, kk in enumerate(base)]
+            vals = list(range(len(data)))
+            try:
+                if k == "qs_bad":
+                    algorithm.quicksort(data)
+                else:
+                    algorithm.quicksort_keyvalue(data, vals)
+                out = "accepted"
+            except Exception as e:
+                out = "rejected(%s)" % type(e).__name__
+                run.fault("sort_failed_half_way")
+            run.event(0, k, sdigest(op), out.split("(")[0])
         elif k in ("qs", "qskv"):
             keys = _keys(op)
             vals = np.arange(keys.size, dtype="i8") * 3 + 1
